@@ -117,7 +117,7 @@ def handler_value(out, rnd):
     if out == "cert60":
         return GeminiResponse(status=60, meta="Certificate required")
     if out == "body51":
-        return GeminiResponse(status=rnd.choice([51, 10, 30, 44, 61]), meta="with body", body=rnd.choice([BODY, BODY_BYTES]))
+        return GeminiResponse(status=51, meta="with body", body=rnd.choice([BODY, BODY_BYTES]))
     if out == "metaCRLF":
         return GeminiResponse(status=20, meta=rnd.choice(["text/gemini\r\n20 text/x", "a\nb", "a\rb", "\r\n"]), body=BODY)
     if out == "metaLong":
